@@ -21,6 +21,9 @@
  *   G | <g0>;<g1>;...;reg=<k>                  composition of GetDependencyGroups() per node: 0 or groups joined by '+', one group =
  *                                              <name|->/<parent.period.filter.ignoreSoft,...>/<own dep ids>/<GetDependenciesCount()>
  *                                              (keys = MakeCompositeKeyFor over this node's own dependencies in the group)
+ *   V | <v0>;<v1>;...                         the graph's edges as the checkables report them, per node
+ *                                              <GetParents() node ids>/<GetChildren() node ids>/<GetReverseDependencies() dep ids>, each sorted,
+ *                                              joined by ',', '-' when empty, '?' for an object that is not of this case
  *   E <reason>                                 malformed op (bad reference, duplicate id ...): rest of the case is skipped
  *
  * A rejected L that is not the first L of its case does not end the case (nothing of the batch is live afterwards), unless the
@@ -49,6 +52,7 @@
 #include <mutex>
 #include <set>
 #include <fcntl.h>
+#include <signal.h>
 
 using namespace icinga;
 using namespace vh;
@@ -318,6 +322,7 @@ struct Engine {
 		dead = false;
 		loadedOnce = false;
 		pfx = "c" + std::to_string(counter) + "_";
+		fflush(stdout);
 		printf("C %s %s\n", cfg ? "cfg" : "obj", tag.c_str());
 		SetNow(kNow);
 		for (int i = 0; i < 4; i++)
@@ -867,9 +872,73 @@ struct Engine {
 		out += "reg=" + std::to_string((long)DependencyGroup::GetRegistrySize() - regBase);
 		puts(out.c_str());
 	}
+
+	void V()
+	{
+		if (!active || dead)
+			return;
+		std::map<const Checkable *, int> nodeId;
+		for (size_t i = 0; i < nodes.size(); i++)
+			if (nodes[i].obj)
+				nodeId[nodes[i].obj.get()] = (int)i;
+		std::map<const Dependency *, int> depId;
+		for (auto& kv : deps)
+			if (kv.second.obj)
+				depId[kv.second.obj.get()] = kv.first;
+		const int unknown = 1000000;
+		auto join = [&](std::vector<int> v) {
+			std::sort(v.begin(), v.end());
+			if (v.empty())
+				return std::string("-");
+			std::string r;
+			for (size_t i = 0; i < v.size(); i++) {
+				if (i)
+					r += ",";
+				r += v[i] == unknown ? std::string("?") : std::to_string(v[i]);
+			}
+			return r;
+		};
+		std::string out = "V | ";
+		bool first = true;
+		for (const Node& n : nodes) {
+			if (!first)
+				out += ";";
+			first = false;
+			if (!n.obj) {
+				out += "x";
+				continue;
+			}
+			std::vector<int> ps, cs, rs;
+			for (const Checkable::Ptr& c : n.obj->GetParents()) {
+				auto it = nodeId.find(c.get());
+				ps.push_back(it == nodeId.end() ? unknown : it->second);
+			}
+			for (const Checkable::Ptr& c : n.obj->GetChildren()) {
+				auto it = nodeId.find(c.get());
+				cs.push_back(it == nodeId.end() ? unknown : it->second);
+			}
+			for (const Dependency::Ptr& d : n.obj->GetReverseDependencies()) {
+				auto it = depId.find(d.get());
+				rs.push_back(it == depId.end() ? unknown : it->second);
+			}
+			out += join(ps) + "/" + join(cs) + "/" + join(rs);
+		}
+		puts(out.c_str());
+	}
 };
 
 static Engine E;
+
+/* A VERIFY()/assert in the library aborts the process: what was printed so far (the operations of the dying case) must not be
+ * lost in the stdio buffer, it is the failing input. */
+static void OnAbort(int sig)
+{
+	signal(SIGABRT, SIG_DFL);
+	signal(SIGSEGV, SIG_DFL);
+	signal(SIGBUS, SIG_DFL);
+	fflush(stdout);
+	raise(sig);
+}
 
 /* ------------------------------------------------------------------------------------------------
  * gen: obj-mode generation */
@@ -1199,13 +1268,16 @@ static void GenRandCase(Rng& rng)
 	int pre = (int)rng.below(nn + 1);
 	for (int i = 0; i < pre; i++)
 		randState();
+	E.V();
 	E.Q();
 	int nops = rng.range(10, 30);
-	bool dirty = false;
+	bool dirty = false, edgesDirty = false;
 	for (int i = 0; i < nops; i++) {
 		if (dirty && rng.below(100) < 45) {
+			if (edgesDirty)
+				E.V();
 			E.Q();
-			dirty = false;
+			dirty = edgesDirty = false;
 			continue;
 		}
 		int k = (int)rng.below(100);
@@ -1219,13 +1291,100 @@ static void GenRandCase(Rng& rng)
 				size_t j = rng.below(live.size());
 				E.X(live[j]);
 				live.erase(live.begin() + j);
+				edgesDirty = true;
 			}
 		} else {
 			addDep();
+			edgesDirty = true;
 		}
 	}
+	if (edgesDirty)
+		E.V();
 	if (dirty)
 		E.Q();
+}
+
+/* Two children whose dependencies have the IDENTICAL set of composite keys (same parent, period, filter, ignore_soft_states per
+ * member) but are grouped differently: outside a redundancy group ("all must hold") for one child, inside a redundancy group
+ * ("one suffices") for the other, or in two differently named redundancy groups. The members of a child differ in what makes
+ * them available (ignore_soft_states, the disable flags, the state filter), so the two readings give different answers.
+ * Exhaustive over parent kind x variation x naming x order of addition x all 16 parent states, then one removal. */
+struct SharedSpec { int parentSvc, var, nameA, nameB, order; };
+
+static const char *SharedName(int k) { return k == 0 ? "" : (k == 1 ? "g" : "h"); }
+
+/* member m (0/1) of a child under variation var: filter, ign, dc, dn */
+static void SharedMember(int parentSvc, int var, int m, int& filter, int& ign, int& dc, int& dn)
+{
+	filter = parentSvc ? 3 : 16; ign = 0; dc = 1; dn = 1;
+	if (var == 0) ign = m;
+	else if (var == 1) dn = m ? 0 : 1;
+	else if (var == 2) dc = m ? 0 : 1;
+	else filter = m ? (parentSvc ? 15 : 48) : filter;
+}
+
+static void SharedOps(const SharedSpec& sp, std::vector<std::string>& lines, int& P, int& A, int& B)
+{
+	char b[160];
+	if (!sp.parentSvc) {
+		lines = { "N 0 h -1", "N 1 h -1", "N 2 h -1" };
+		P = 0; A = 1; B = 2;
+	} else {
+		lines = { "N 0 h -1", "N 1 s 0", "N 2 h -1", "N 3 h -1" };
+		P = 1; A = 2; B = 3;
+	}
+	static const int orders[3][4] = { { 0, 1, 2, 3 }, { 2, 3, 0, 1 }, { 0, 2, 1, 3 } };
+	for (int k = 0; k < 4; k++) {
+		int id = orders[sp.order][k];
+		int child = id < 2 ? A : B, m = id % 2;
+		int filter, ign, dc, dn;
+		SharedMember(sp.parentSvc, sp.var, m, filter, ign, dc, dn);
+		const char *nm = SharedName(id < 2 ? sp.nameA : sp.nameB);
+		snprintf(b, sizeof b, "D %d %d %d %s %d %d -1 %d %d", id, child, P, *nm ? nm : "-", filter, ign, dc, dn);
+		lines.push_back(b);
+	}
+}
+
+static void GenShared()
+{
+	for (int parentSvc = 0; parentSvc < 2; parentSvc++)
+	for (int var = 0; var < 4; var++)
+	for (int nameA = 0; nameA < 2; nameA++)
+	for (int nameB = 0; nameB < 3; nameB++)
+	for (int order = 0; order < 3; order++) {
+		SharedSpec sp = { parentSvc, var, nameA, nameB, order };
+		std::vector<std::string> lines;
+		int P, A, B;
+		SharedOps(sp, lines, P, A, B);
+		E.C(false, "shared");
+		for (const std::string& l : lines) {
+			int id, c, pa, filter, ign, period, dc, dn, host; char grp[64], k;
+			if (sscanf(l.c_str(), "N %d %c %d", &id, &k, &host) == 3)
+				E.N(id, k == 's', host);
+			else if (sscanf(l.c_str(), "D %d %d %d %63s %d %d %d %d %d", &id, &c, &pa, grp, &filter, &ign, &period, &dc, &dn) == 9)
+				E.D(id, c, pa, strcmp(grp, "-") ? grp : "", filter, ign, period, dc, dn);
+		}
+		E.G();
+		E.V();
+		AllStatesLoop(P);
+		int removed = (var + nameA + nameB + order) % 4;
+		E.X(removed);
+		E.G();
+		E.V();
+		E.S(P, 1, 2, 0); E.Q();
+		E.S(P, 1, 2, 1); E.Q();
+		E.S(P, 1, 1, 1); E.Q();
+		/* and back again as a new object */
+		{
+			int child = removed < 2 ? A : B, filter, ign, dc, dn;
+			SharedMember(parentSvc, var, removed % 2, filter, ign, dc, dn);
+			E.D(4, child, P, SharedName(removed < 2 ? nameA : nameB), filter, ign, -1, dc, dn);
+		}
+		E.G();
+		E.V();
+		E.S(P, 1, 2, 0); E.Q();
+		E.S(P, 1, 2, 1); E.Q();
+	}
 }
 
 static void GenCycle()
@@ -1609,7 +1768,7 @@ struct RtGen {
 		c = pr.first; p = pr.second;
 	}
 
-	void GQ() { printf("G\nQ -\n"); }
+	void GQ() { printf("G\nV\nQ -\n"); }
 
 	void Case(int idx)
 	{
@@ -1791,21 +1950,21 @@ struct RtGen {
 static void GenRtHand()
 {
 	/* (i) A closing a 2-cycle is refused and leaves everything as it was; then a harmless A */
-	printf("C cfg rt-hand-i\nN 0 h -1\nN 1 h -1\nN 2 h -1\nD 0 1 0 - 16 0 -1 1 1\nL\nG\nQ -\n"
-		"A 1 0 1 - 16 0 -1 1 1\nG\nQ -\nA 2 2 0 - 16 0 -1 1 1\nG\nQ -\nR 2\nG\nQ -\n");
+	printf("C cfg rt-hand-i\nN 0 h -1\nN 1 h -1\nN 2 h -1\nD 0 1 0 - 16 0 -1 1 1\nL\nG\nV\nQ -\n"
+		"A 1 0 1 - 16 0 -1 1 1\nG\nV\nQ -\nA 2 2 0 - 16 0 -1 1 1\nG\nV\nQ -\nR 2\nG\nV\nQ -\n");
 	/* (ii) two children share redundancy group g1 over the same two parents */
 	printf("C cfg rt-hand-ii\nN 0 h -1\nN 1 h -1\nN 2 h -1\nN 3 h -1\n"
-		"D 0 2 0 g1 16 0 -1 1 1\nD 1 2 1 g1 16 0 -1 1 1\nD 2 3 0 g1 16 0 -1 1 1\nD 3 3 1 g1 16 0 -1 1 1\nL\nG\nQ -\n"
-		"X 0\nG\nQ -\nA 4 2 0 g1 16 0 -1 1 1\nG\nQ -\nS 0 1 2 1\nQ -\nR 4\nG\nQ -\nS 1 1 2 1\nQ -\n");
+		"D 0 2 0 g1 16 0 -1 1 1\nD 1 2 1 g1 16 0 -1 1 1\nD 2 3 0 g1 16 0 -1 1 1\nD 3 3 1 g1 16 0 -1 1 1\nL\nG\nV\nQ -\n"
+		"X 0\nG\nV\nQ -\nA 4 2 0 g1 16 0 -1 1 1\nG\nV\nQ -\nS 0 1 2 1\nQ -\nR 4\nG\nV\nQ -\nS 1 1 2 1\nQ -\n");
 	/* (iii) duplicate plain dependencies with different disable flags, one removed */
-	printf("C cfg rt-hand-iii\nN 0 h -1\nN 1 h -1\nD 0 1 0 - 16 0 -1 1 1\nD 1 1 0 - 16 0 -1 0 1\nL\nG\nQ -\n"
-		"S 0 1 2 1\nQ -\nX 0\nG\nQ -\nA 2 1 0 - 16 0 -1 1 0\nG\nQ -\nA 3 1 0 - 16 1 -1 1 1\nG\nQ -\nR 2\nG\nQ -\n");
+	printf("C cfg rt-hand-iii\nN 0 h -1\nN 1 h -1\nD 0 1 0 - 16 0 -1 1 1\nD 1 1 0 - 16 0 -1 0 1\nL\nG\nV\nQ -\n"
+		"S 0 1 2 1\nQ -\nX 0\nG\nV\nQ -\nA 2 1 0 - 16 0 -1 1 0\nG\nV\nQ -\nA 3 1 0 - 16 1 -1 1 1\nG\nV\nQ -\nR 2\nG\nV\nQ -\n");
 	/* (iv) A making a host depend on its own service */
-	printf("C cfg rt-hand-iv\nN 0 h -1\nN 1 s 0\nN 2 h -1\nD 0 2 0 - 16 0 -1 1 1\nL\nG\nQ -\n"
-		"A 1 0 1 - 3 0 -1 1 1\nG\nQ -\nA 2 1 1 - 3 0 -1 1 1\nG\nQ -\nA 3 0 2 - 16 0 -1 1 1\nG\nQ -\nA 4 1 2 g1 16 0 0 1 1\nG\nQ -\n");
+	printf("C cfg rt-hand-iv\nN 0 h -1\nN 1 s 0\nN 2 h -1\nD 0 2 0 - 16 0 -1 1 1\nL\nG\nV\nQ -\n"
+		"A 1 0 1 - 3 0 -1 1 1\nG\nV\nQ -\nA 2 1 1 - 3 0 -1 1 1\nG\nV\nQ -\nA 3 0 2 - 16 0 -1 1 1\nG\nV\nQ -\nA 4 1 2 g1 16 0 0 1 1\nG\nV\nQ -\n");
 	/* (v) a refused later batch does not end the case */
-	printf("C cfg rt-hand-v\nN 0 h -1\nN 1 h -1\nN 2 h -1\nD 0 1 0 - 16 0 -1 1 1\nL\nG\nQ -\n"
-		"D 1 2 1 - 16 0 -1 1 1\nD 2 0 2 - 16 0 -1 1 1\nL\nG\nQ -\nD 3 2 1 - 16 0 -1 1 1\nL\nG\nQ -\nA 4 0 2 - 16 0 -1 1 1\nG\nQ -\n");
+	printf("C cfg rt-hand-v\nN 0 h -1\nN 1 h -1\nN 2 h -1\nD 0 1 0 - 16 0 -1 1 1\nL\nG\nV\nQ -\n"
+		"D 1 2 1 - 16 0 -1 1 1\nD 2 0 2 - 16 0 -1 1 1\nL\nG\nV\nQ -\nD 3 2 1 - 16 0 -1 1 1\nL\nG\nV\nQ -\nA 4 0 2 - 16 0 -1 1 1\nG\nV\nQ -\n");
 }
 
 /* gencfg rt part: a plain dependency on P next to a redundancy group named like P (two members), three ways of adding */
@@ -1828,14 +1987,14 @@ static void GenRtCollideHand()
 		snprintf(m2, sizeof m2, "%%c 2 %d %d @%d 16 0 -1 1 1\n", child, B, P);
 		bool apiPlain = false, apiMembers = false;
 		if (how == 0) {          /* all three in the first L */
-			printf(plain, 'D'); printf(m1, 'D'); printf(m2, 'D'); printf("L\nG\nQ -\n");
+			printf(plain, 'D'); printf(m1, 'D'); printf(m2, 'D'); printf("L\nG\nV\nQ -\n");
 		} else if (how == 1) {   /* plain first, the group members at runtime */
-			printf(plain, 'D'); printf("L\nG\nQ -\n");
-			printf(m1, 'A'); printf("G\nQ -\n"); printf(m2, 'A'); printf("G\nQ -\n");
+			printf(plain, 'D'); printf("L\nG\nV\nQ -\n");
+			printf(m1, 'A'); printf("G\nV\nQ -\n"); printf(m2, 'A'); printf("G\nV\nQ -\n");
 			apiMembers = true;
 		} else {                 /* the group first, the plain dependency at runtime */
-			printf(m1, 'D'); printf(m2, 'D'); printf("L\nG\nQ -\n");
-			printf(plain, 'A'); printf("G\nQ -\n");
+			printf(m1, 'D'); printf(m2, 'D'); printf("L\nG\nV\nQ -\n");
+			printf(plain, 'A'); printf("G\nV\nQ -\n");
 			apiPlain = true;
 		}
 		int nodesOf[3] = { P, A, B };
@@ -1851,6 +2010,42 @@ static void GenRtCollideHand()
 				printf("Q -\n");
 			}
 		}
+	}
+}
+
+/* gencfg rt part: the GenShared configurations through the config path: everything in the first load, or one child's
+ * dependencies added at runtime (either child first); the check compares every one with a fresh load of the final set. */
+static void GenRtSharedHand()
+{
+	for (int var = 0; var < 4; var++)
+	for (int nameA = 0; nameA < 2; nameA++)
+	for (int nameB = 0; nameB < 3; nameB++)
+	for (int how = 0; how < 3; how++) {
+		SharedSpec sp = { (var + how) % 2, var, nameA, nameB, how == 2 ? 1 : 0 };
+		std::vector<std::string> lines;
+		int P, A, B;
+		SharedOps(sp, lines, P, A, B);
+		printf("C cfg rt-shared-%d%d%d%d\n", var, nameA, nameB, how);
+		std::vector<std::string> later;
+		for (const std::string& l : lines) {
+			int id = -1;
+			bool isD = sscanf(l.c_str(), "D %d", &id) == 1;
+			/* how 1: B's dependencies (ids 2,3) at runtime; how 2: A's (ids 0,1) at runtime */
+			if (isD && ((how == 1 && id >= 2) || (how == 2 && id < 2)))
+				later.push_back("A" + l.substr(1));
+			else
+				puts(l.c_str());
+		}
+		printf("L\nG\nV\nQ -\n");
+		for (const std::string& l : later)
+			printf("%s\nG\nV\nQ -\n", l.c_str());
+		static const int st[5][3] = { { 1, 2, 0 }, { 1, 2, 1 }, { 1, 1, 1 }, { 0, 2, 1 }, { 1, 0, 0 } };
+		for (int k = 0; k < 5; k++)
+			printf("S %d %d %d %d\nQ -\n", P, st[k][0], st[k][1], st[k][2]);
+		int removed = (var + nameA + nameB + how) % 4;
+		bool api = (how == 1 && removed >= 2) || (how == 2 && removed < 2);
+		printf("%c %d\nG\nV\nQ -\n", api ? 'R' : 'X', removed);
+		printf("S %d 1 2 0\nQ -\nS %d 1 2 1\nQ -\n", P, P);
 	}
 }
 
@@ -1941,6 +2136,9 @@ static int RunOps(const char *path)
 		case 'G':
 			E.G();
 			break;
+		case 'V':
+			E.V();
+			break;
 		case 'L':
 			E.L();
 			break;
@@ -1978,6 +2176,7 @@ int main(int argc, char **argv)
 		/* appended later: everything above stays byte-identical for a given seed */
 		GenRtHand();
 		GenRtCollideHand();
+		GenRtSharedHand();
 		Rng rng2(seed ^ 0x7c07a11ceULL);
 		RtGen rt(rng2);
 		int nrt = thorough ? 2500 : 300;
@@ -1997,6 +2196,9 @@ int main(int argc, char **argv)
 	}
 
 	InitIcinga();
+	signal(SIGABRT, OnAbort);
+	signal(SIGSEGV, OnAbort);
+	signal(SIGBUS, OnAbort);
 	SetNow(kNow);
 	int rc = 0;
 
@@ -2007,6 +2209,7 @@ int main(int argc, char **argv)
 		GenCycle();
 		GenChain();
 		GenCollide();
+		GenShared();
 		GenSmall(rng, thorough);
 		int n = thorough ? 20000 : 2000;
 		for (int i = 0; i < n; i++)
